@@ -108,6 +108,22 @@ def run_shard(shard, ctx):
             ctx.evaluations += 1
             if got != [[], None]:
                 e1.report(ctx, "empty-track", text, PROBE_SRC, [[[], None]], got, "note-less track: last_note_end must be absent, body=%r" % body)
+        # the opposite corner: a track whose ONLY note sits at tick 0 with every length 0 - its last-note-end is time
+        # zero, which is a time and not "absent" (every combination, open, with and without the tap flag / S / E lines)
+        from ..chartgen import COMBOS, note_lines
+
+        for combo in COMBOS:
+            for flags in ((), (6,)):
+                for extra in ([], ["0 = S 2 0", "0 = E solo"]):
+                    for sync in (["0 = TS 4", "0 = B 120000"], ["0 = TS 4", "0 = B 1", "1 = B 999999"]):
+                        body = note_lines(0, combo, flags) + extra
+                        text = mk(sync=sync, tracks={"ExpertSingle": body})
+                        expected = [[[0, 0, 0, 0, 0, True]], 0]
+                        got = e1.run_probe(probe, text)
+                        ctx.case(text, sample=dict(body=body))
+                        ctx.evaluations += 7
+                        if got != expected:
+                            e1.report(ctx, "sustain", text, PROBE_SRC, [expected], got, "a single unsustained note at tick 0 (last-note-end is time zero, not absent): body=%r" % body)
         return
     if shard[0] == "headers":
         # the statement is about notes of any track: a sample of the patterns under every one of the 40 headers
